@@ -1,6 +1,8 @@
 SPECIFICATION Spec
 CONSTANTS
   MaxOps = 3
+  MaxLevel = 5
+  KeepLast = TRUE
   Record = TRUE
   EmitBadOnly = FALSE
   Interferer = "ub"
@@ -13,12 +15,4 @@ CONSTANTS
   SwCacheWorld = TRUE
   SwCreateAtomic = TRUE
   SwFailKeeps = TRUE
-INVARIANT Totality
-INVARIANT Persistence
-INVARIANT SaveExact
-INVARIANT RemoveExact
-INVARIANT ReadOnly
-INVARIANT Faithful
-INVARIANT FailedStepKeeps
-INVARIANT Isolation
 CHECK_DEADLOCK FALSE
